@@ -270,9 +270,21 @@ class Inliner:
                 rename[nm] = new
         subst: dict[str, ast.AST] = {}
         prefix: list[ast.stmt] = []
+        stored_attrs = {x.attr for x in ast.walk(h.fn) if isinstance(x, ast.Attribute) and isinstance(x.ctx, (ast.Store, ast.Del))}
+        stored_items = {x.value.id for x in ast.walk(h.fn) if isinstance(x, ast.Subscript) and isinstance(x.ctx, (ast.Store, ast.Del)) and isinstance(x.value, ast.Name)}
+
+        def stable(a):
+            """The argument expression reads nothing the helper itself writes (`helper(self.n)` with `self.n += 1` inside must bind first)."""
+            for x in ast.walk(a):
+                if isinstance(x, ast.Attribute) and x.attr in stored_attrs:
+                    return False
+                if isinstance(x, ast.Subscript) and isinstance(x.value, ast.Name) and (x.value.id in stored_items or stored_items):
+                    return False
+            return True
         for p, a in bound.items():
             uses = sum(1 for n in ast.walk(h.fn) if isinstance(n, ast.Name) and n.id == p and isinstance(n.ctx, ast.Load))
-            if p not in h.assigned and (_simple(a) or uses <= 1):
+            if p not in h.assigned and ((_simple(a) and stable(a)) or (uses <= 1 and stable(a) and (h.expr is not None or not any(isinstance(x, ast.Call) for x in ast.walk(a))))
+                                        or (uses <= 1 and isinstance(a, (ast.Name, ast.Constant, ast.JoinedStr, ast.Compare, ast.BinOp, ast.UnaryOp, ast.BoolOp)) and stable(a))):
                 subst[p] = a
             else:
                 new = p
